@@ -101,6 +101,16 @@ theorem stream_fill_safe (bs : UInt32) (s : StreamSt) (w : UInt32) (l : BlkLoad)
     (streamFill true bs s w l fragPre fragOff).1.bufUsed.toNat ≤ bs.toNat :=
   streamFill_safe bs s w l fragPre fragOff hs hcodec
 
+/-- `sqfs_data_reader_read`: for every block list, file size, offset, size and fragment location, the copies stay
+inside the `block_size`-byte data block, the fragment block (`frag_blk_size`) and the caller's `size` bytes.
+Hypothesis `file_size < 2^64 - 2^32` excludes the one case where `frag_off + offset` wraps in 64 bits (then the
+C code computes a wrapped pointer that lands inside the block again; not reachable below 16 EiB files). -/
+theorem data_read_safe (bs : UInt32) (words : Nat → UInt32) (blkOk : Nat → Bool) (blockCount : Nat)
+    (filesz offset : UInt64) (size0 : UInt32) (fragOff : UInt32) (fragPre : Except Err UInt64)
+    (hfs : filesz.toNat + 2 ^ 32 ≤ 2 ^ 64) :
+    ∀ a ∈ (dataRead bs words blkOk blockCount filesz offset size0 fragOff fragPre).2, a.inBounds :=
+  dataRead_safe bs words blkOk blockCount filesz offset size0 fragOff fragPre hfs
+
 /-! ## `read_table.c` -/
 
 /-- `sqfs_read_table`: for every table size, the location index stays below `block_count` and the copies fill
@@ -195,6 +205,7 @@ example : getFragment true 4096 5000 1 3000 (.ok ()) =
 example : getFragment true 4096 5000 1 4000000000 (.ok ()) = .error .oob := by decide
 example : (streamFill true 4096 ⟨0, 0, 10000, 0, 2, false⟩ 0x1000800 ⟨false, none⟩ (.ok 0) 0).2.1 = .data 4096 := by
   decide
+example : (dataRead 4096 (fun _ => 0x1001000) (fun _ => true) 2 9000 4000 500 100 (.ok 4096)).1 = .ok 500 := by decide
 example : (readInodeDirExt 10 [3, 0xFFFFFFFF, 200]).isOk = true := by decide
 example : (resolveCompare true [97, 98] [97, 98, 47, 99]).1 = true := by decide
 example : readTree ⟨fun r => if r = 0 then [1, 2] else [], fun _ => true, fun r => r.toUInt32⟩ 3 0 = .ok 2 := by decide
